@@ -96,6 +96,8 @@ class FilesVal(SVal):
 
 class H5pyMod(SVal):
     def py_getattr(self, cx, name):
+        if name == "Empty":
+            return lambda cx2, dt=None: OpaqueVal("h5py.Empty")
         return SClass("H5" + name)
 
 
@@ -390,9 +392,35 @@ class WFiles(SVal):
         return SInt(self.node.nfiles)
 
     def py_getitem(self, cx, i):
+        from pyvc.values import SliceVal
+
         if i == -1:
             return self.newest
+        if isinstance(i, SliceVal) and (i.lo, i.hi, i.step) == (None, -1, None):
+            return OlderFiles(self.node)
         raise Unsupported("writers only touch the newest container")
+
+
+OLDER_HAS = z3.Function("some_older_container_of_this_file_set_holds_path", S, B)
+
+
+class OlderFiles(SVal):
+    """self._files[:-1]: the older containers of the file set that happens to be open (read-only for writers);
+    what they hold is not determined by the newest container, nor by other file sets the same patch can be applied to"""
+
+    def __init__(self, node):
+        self.node = node
+
+    def py_quantify(self, interp, cx, g, universal):
+        import ast
+
+        e = g.node
+        tgt = e.generators[0].target
+        body = e.elt
+        if universal or e.generators[0].ifs or not (isinstance(body, ast.Compare) and len(body.ops) == 1 and isinstance(body.ops[0], ast.In) and isinstance(body.comparators[0], ast.Name) and body.comparators[0].id == tgt.id):
+            raise Unsupported("quantification over the older containers other than `any(p in f for f in ...)`")
+        p = interp.eval(cx, g.fr, body.left)
+        return SBool(OLDER_HAS(p.t if isinstance(p, SStr) else z3.StringVal(p)))
 
 
 def wnode_obj(cx, attrs=False):
@@ -536,10 +564,201 @@ def add_writers(reg):
         reg.method_bindings[(c, "_guard_value")] = _guard_value_binding
         reg.method_bindings[(c, "_expect_real_item_idx")] = lambda cx, o, k: (SInt(FOUND_IDX(k.t)) if cx.decide(VISIBLE(k.t)) else cx.py_raise("KeyError", "does not exist"))
         reg.method_bindings[(c, "_abs_path")] = lambda cx, o, p: SStr(abs_path_term(o, p.t if isinstance(p, SStr) else z3.StringVal(p)))
-    specs = [GroupDelitem(), AttrDelitem(), AttrSetitem()]
+    reg.method_bindings[("IH5Group", "_node_seq")] = lambda cx, o, p: NodeSeq(p.t)
+    reg.attr_bindings[("IH5Group", "_record")] = lambda cx, o: OpaqueVal("record")
+    specs = [GroupDelitem(), AttrDelitem(), AttrSetitem(), GroupCreateGroup()]
     for s in specs:
         reg.add(s)
     return specs
+
+
+# ------------------------------------------------------------------------------------------------
+# IH5Group.create_group: the leaf step and the level-by-level recursion (C01, C09, C10)
+
+DEEPEST = z3.Function("deepest_existing_node_path", S, S)  # _gpath of the last node _node_seq(path) finds in the overlay view
+DEEPEST_IS_GROUP = z3.Function("deepest_existing_node_is_group", S, B)
+NSEG = z3.Function("missing_segments", S, z3.IntSort())  # number of path segments below the deepest existing node
+SEG0 = z3.Function("first_missing_segment", S, S)
+REST = z3.Function("remaining_missing_segments_joined", S, S)
+ISDELP = z3.Function("newest_container_holds_deletion_marker_at", S, B)
+
+
+class DeepNode(SVal):
+    def __init__(self, path_t):
+        self.path_t = path_t
+
+    def py_isinstance(self, cx, c):
+        if c == "IH5Group":
+            return DEEPEST_IS_GROUP(self.path_t)
+        raise Unsupported("isinstance of the deepest node with " + str(c))
+
+    def py_getattr(self, cx, name):
+        if name == "_gpath":
+            return SStr(DEEPEST(self.path_t))
+        raise Unsupported("deepest node attribute " + name)
+
+    def meth__rel_path(self, cx, p):
+        return RelPath(p.t)
+
+
+class NodeSeq(SVal):
+    def __init__(self, path_t):
+        self.path_t = path_t
+
+    def py_getitem(self, cx, i):
+        if i != -1:
+            raise Unsupported("only the last node of the sequence is used")
+        return DeepNode(self.path_t)
+
+
+class RelPath(SVal):
+    def __init__(self, path_t):
+        self.path_t = path_t
+
+    def meth_split(self, cx, sep):
+        if sep != "/":
+            raise Unsupported("split by something else")
+        return RelSegs(self.path_t)
+
+
+class RelSegs(SVal):
+    """the non-empty segments of the missing part of the path"""
+
+    def __init__(self, path_t):
+        self.path_t = path_t
+
+    def py_len(self, cx):
+        return SInt(NSEG(self.path_t))
+
+    def py_getitem(self, cx, i):
+        from pyvc.values import SliceVal
+
+        if isinstance(i, SliceVal) and (i.lo, i.hi, i.step) == (1, None, None):
+            return RestSegs(self.path_t)
+        if i == 0:
+            return SStr(SEG0(self.path_t))
+        raise Unsupported("other segment access")
+
+
+class RestSegs(SVal):
+    def __init__(self, path_t):
+        self.path_t = path_t
+
+    def py_joined_by(self, cx, sep):
+        if sep != "/":
+            raise Unsupported("joined by something else")
+        return JoinedRest(self.path_t)
+
+
+def rel_segs_schema(interp, cx, fr, e):
+    import ast
+
+    src = interp.eval(cx, fr, e.generators[0].iter)
+    if not isinstance(src, RelSegs) or [ast.unparse(c) for c in e.generators[0].ifs] != [e.generators[0].target.id] or ast.unparse(e.elt) != e.generators[0].target.id:
+        from pyvc.api import ContractStale
+
+        raise ContractStale("create_group: the comprehension is no longer `the non-empty segments of the relative path`")
+    return src
+
+
+class CreatedGroup(SVal):
+    def __init__(self, path_t, by):
+        self.path_t, self.by = path_t, by
+
+    def py_truth(self, cx):
+        return True
+
+    def meth_create_group(self, cx, name):
+        if isinstance(name, JoinedRest):
+            t = REST(name.path_t)
+        elif isinstance(name, SStr):
+            t = name.t
+        else:
+            raise Unsupported("create_group on the new parent with this name")
+        g = CreatedGroup(z3.String(fresh_name("nested_group_path")), self)
+        cx.effect("create-group-rec", self, t, g)
+        return g
+
+
+class JoinStr(SStr):
+    pass
+
+
+class GroupCreateGroup(Writer):
+    qual = "IH5Group.create_group"
+    props = ("C01", "C09", "C10")
+    recursive = True
+
+    def init(self):
+        Writer.init(self)
+        self.bindings["_node_is_del_mark"] = lambda cx, node: SBool(ISDELP(node.path))
+        self.bindings["IH5Group"] = GroupClass()
+        self.bindings["SUBST_KEY"] = "__SUBST_KEY__"
+        self.comps[0] = rel_segs_schema
+
+    def setup(self, cx):
+        n = wnode_obj(cx)
+        a = A(self=n, name=SStr(z3.String("name")))
+        p = abs_path_term(n, a.name.t)
+        cx.assume(NSEG(p) >= 0)
+        return a
+
+    def raises(self, cx, a):
+        n = a.self
+        p = abs_path_term(n, a.name.t)
+        return {"KeyError": z3.Not(n.is_open), "ValueError": z3.Or(n.read_only, z3.Not(DEEPEST_IS_GROUP(p)), DEEPEST(p) == p)}
+
+    def ensures(self, cx, a, res):
+        n = a.self
+        p = abs_path_term(n, a.name.t)
+        fx = cx.fx
+        kinds = [e[0] for e in fx]
+        out = [("only-when-allowed", z3.And(n.is_open, z3.Not(n.read_only), DEEPEST_IS_GROUP(p), DEEPEST(p) != p), "create_group succeeds exactly on a writable record when nothing exists at the path and the deepest existing ancestor is a group")]
+        rec = [e for e in fx if e[0] == "create-group-rec"]
+        if rec:
+            d = DEEPEST(p)
+            pref = z3.If(d == z3.StringVal("/"), z3.StringVal(""), d)
+            first_ok = z3.And(z3.BoolVal(len(rec) == 2 and kinds == ["create-group-rec"] * 2 and rec[0][1] is n), rec[0][2] == z3.Concat(pref, z3.StringVal("/"), SEG0(p)) if len(rec) == 2 else False)
+            second_ok = z3.And(z3.BoolVal(len(rec) == 2 and isinstance(rec[1][1], CreatedGroup) and isinstance(res, CreatedGroup) and res is rec[1][3]), (rec[1][1].path_t == rec[0][2]) if len(rec) == 2 and isinstance(rec[1][1], CreatedGroup) else False, (rec[1][2] == REST(p)) if len(rec) == 2 else False)
+            out.append(("several-missing-levels", NSEG(p) > 1, "the recursion is taken exactly when more than one level is missing"))
+            out.append(("missing-parents-created-one-level-at-a-time", z3.And(first_ok, second_ok), "the first missing level is created through create_group itself (so it replaces a deletion marker and is marked like a direct creation), the rest below it; nothing is written directly"))
+            return out
+        dels = [e for e in fx if e[0] == "h5del"]
+        mk = [e for e in fx if e[0] == "h5mkgrp"]
+        marks = [e for e in fx if e[0] == "attr-set"]
+        out.append(("single-missing-level", NSEG(p) <= 1, "the leaf step creates exactly one level"))
+        out.append(("deletion-marker-removed-iff-present", z3.And(z3.BoolVal(len(dels) <= 1), z3.BoolVal(len(dels) == 1) == z3.And(HASP(p), ISDELP(p)), (dels[0][1] == p) if dels else True), "a deletion marker at the path in the newest container is removed first (and only a marker)"))
+        out.append(("group-created-at-the-path", z3.And(z3.BoolVal(len(mk) == 1), (mk[0][1] == p) if mk else False), "the group is created in the newest container at the absolute path"))
+        out.append(("patch:always-marked-as-new", z3.And(z3.BoolVal(len(marks) == 1) == (n.nfiles > 1), z3.And(marks[0][1] == p, marks[0][2] == z3.StringVal("__SUBST_KEY__")) if marks else True), "in a patch a created group is ALWAYS marked as substituting whatever older containers (of this or any other file set the patch is applied to) hold at that path; the base container needs no mark"))
+        out.append(("order-and-nothing-else", z3.BoolVal(kinds == (["h5del"] if dels else []) + ["h5mkgrp"] + (["attr-set"] if marks else [])), "marker removal, creation, mark — nothing else is written"))
+        out.append(("returns-the-new-group", z3.BoolVal(isinstance(res, CreatedGroup)) if not isinstance(res, CreatedGroup) else z3.And(res.path_t == p), "the new group in the newest container is returned"))
+        return out
+
+    # recursive calls: by contract (logged)
+    def apply(self, cx, a):
+        nm = a.name
+        t = nm.t if isinstance(nm, SStr) else (z3.StringVal(nm) if isinstance(nm, str) else None)
+        if isinstance(nm, JoinedRest):
+            t = REST(nm.path_t)
+        if t is None:
+            raise Unsupported("create_group called with this name")
+        g = CreatedGroup(t, None)
+        cx.effect("create-group-rec", a.self, t, g)
+        return g
+
+
+class JoinedRest(SVal):
+    def __init__(self, path_t):
+        self.path_t = path_t
+
+
+class GroupClass(SVal):
+    """IH5Group as class object: isinstance target and constructor of the result node"""
+
+    name = "IH5Group"
+
+    def py_call(self, cx, rec, path=None, cidx=None):
+        return CreatedGroup(path.t, None)
 
 
 # ------------------------------------------------------------------------------------------------
